@@ -45,7 +45,7 @@ structure Cfg where
   deriving DecidableEq, Repr, Inhabited
 
 /-- one output table of a compaction in progress: id, level, content, stage
-    (0 id reserved, 1 file created, 2 content written) -/
+    (0 id reserved, 1 file created, 2 content written, 3 content msynced) -/
 structure KOut where
   id : Nat
   level : Nat
@@ -96,6 +96,12 @@ structure PState where
   vfid : Nat := 1
   vcount : Nat := 0                       -- valueLog.numEntriesWritten
   vchunks : Nat := 1                      -- chunks in the current vlog file (header included)
+  curDirty : Bool := false                -- the active WAL has transaction records not yet msynced
+  curDurEntry : Bool := true              -- a directory fsync has happened since the active WAL was created
+  mdirty : Bool := false                  -- the MANIFEST has an appended change set not yet fsynced
+  tsetD : List (Nat × Nat) := []          -- ghost: the table set as of the last MANIFEST fsync
+  kdir : Bool := false                    -- a directory fsync has happened since the last output table was created
+  pendU : List (Nat × Nat) := []          -- ghost: WALs unlinked since the last directory fsync (fid, table flushed to)
   wq : List Atom := []                    -- rest of the writer's current logical step
   commits : List Txn := []                -- ghost: issued commits in commit order
   done : Nat := 0                         -- ghost: commits whose end marker is in a WAL
@@ -132,7 +138,7 @@ def Atom.guard (s : PState) : Atom → Bool
   | .vtrunc => 1 ≤ s.vchunks
   | .vrot => true
   | .vhdr => true
-  | .pushImm => s.curOpen && s.pending.isEmpty
+  | .pushImm => s.curOpen && s.pending.isEmpty && (!s.cfg.syncWrites || (!s.curDirty && (!s.cfg.dirSyncFix || s.curDurEntry)))
   | .newMem => !s.curOpen && s.pending.isEmpty
   | .mhdr => s.curOpen && !s.curHdr
   | .wput _ => s.curOpen && s.curHdr && s.inflight.isSome
@@ -140,18 +146,20 @@ def Atom.guard (s : PState) : Atom → Bool
     match s.inflight with
     | some t => s.curOpen && s.curHdr && s.pending == t.ents && !t.ents.isEmpty && t.ts != 0
     | none => false
-  | .ack => s.acked < s.done
+  | .ack => s.acked < s.done && (!s.cfg.syncWrites || (s.curOpen && !s.curDirty && (!s.cfg.dirSyncFix || s.curDurEntry)))
   | .kmk id => s.kout.any (fun o => o.id == id && o.stage == 0) && !s.flusherHolds id && (aget id s.tset).isNone
   | .kwrite id => s.kout.any (fun o => o.id == id && o.stage == 1) && !s.flusherHolds id && (aget id s.tset).isNone
   | .kmset =>
-    !s.kins.isEmpty && s.kout.all (fun o => o.stage == 2 && (aget o.id s.tset).isNone) &&
+    !s.kins.isEmpty && s.kout.all (fun o => o.stage == 3 && (aget o.id s.tset).isNone) &&
+    !s.mdirty && s.kdir && s.pendU.isEmpty &&
     nodupNat (s.kout.map (·.id)) && nodupNat s.kins &&
     s.kins.all (fun id => (aget id s.tset).isSome) && (applyMSet s.tset (kmsetChanges s)).isSome &&
     -- (modelling restriction) a table is not compacted away while the WAL it was flushed from
     -- is still waiting to be deleted
     !(!s.imm.isEmpty && 5 ≤ s.fpc && s.kins.contains s.fsst)
   | .kdel id =>
-    s.kdelq.contains id && (aget id s.tset).isNone && !s.flusherHolds id && !s.kout.any (fun o => o.id == id)
+    s.kdelq.contains id && (aget id s.tset).isNone && !s.flusherHolds id && !s.kout.any (fun o => o.id == id) &&
+    !s.mdirty
 
 /-- the `FsOp`s of one writer atom in state `s` (when its guard holds) -/
 def Atom.rawOps (s : PState) : Atom → List FsOp
@@ -177,21 +185,29 @@ def Atom.rawOps (s : PState) : Atom → List FsOp
   | .kdel id => delFile (.sst id)
 
 def Atom.rawEff (s : PState) : Atom → PState
-  | .sync _ => s
-  | .syncDir => s
+  | .sync p =>
+    match p with
+    | .mem fid => if fid = s.cur ∧ s.curOpen then { s with curDirty := false } else s
+    | .manifest => { s with mdirty := false, tsetD := s.tset }
+    | .sst id => { s with kout := s.kout.map (fun o => if o.id == id && o.stage == 2 then { o with stage := 3 } else o) }
+    | _ => s
+  | .syncDir =>
+    { s with curDurEntry := if s.curOpen then true else s.curDurEntry, pendU := [],
+             kdir := s.kdir || s.kout.all (fun o => 1 ≤ o.stage) }
   | .zero _ => s
   | .vput _ _ => { s with vcount := s.vcount + 1, vchunks := s.vchunks + 1 }
   | .vtrunc => s
   | .vrot => { s with vfid := s.vfid + 1, vcount := 0, vchunks := 0 }
   | .vhdr => { s with vchunks := s.vchunks + 1 }
   | .pushImm => { s with imm := s.imm ++ [s.cur], curOpen := false }
-  | .newMem => { s with cur := s.nextMem, curOpen := true, curHdr := false, nextMem := s.nextMem + 1 }
+  | .newMem => { s with cur := s.nextMem, curOpen := true, curHdr := false, nextMem := s.nextMem + 1,
+                        curDirty := false, curDurEntry := false }
   | .mhdr => { s with curHdr := true }
-  | .wput e => { s with pending := s.pending ++ [e] }
+  | .wput e => { s with pending := s.pending ++ [e], curDirty := true }
   | .fin =>
     match s.inflight with
     | some t => { s with mtxns := aset s.cur (s.memTxns s.cur ++ [t]) s.mtxns, pending := [],
-                         inflight := none, done := s.done + 1 }
+                         inflight := none, done := s.done + 1, curDirty := true }
     | none => s
   | .ack => { s with acked := s.acked + 1 }
   | .kmk id => { s with kout := s.kout.map (fun o => if o.id == id then { o with stage := 1 } else o) }
@@ -199,7 +215,7 @@ def Atom.rawEff (s : PState) : Atom → PState
   | .kmset =>
     { s with tset := (applyMSet s.tset (kmsetChanges s)).getD s.tset,
              tcont := s.kout.map (fun o => (o.id, o.ents)) ++ s.tcont,
-             kdelq := s.kins, kins := [], kout := [] }
+             kdelq := s.kins, kins := [], kout := [], mdirty := true }
   | .kdel id => { s with kdelq := s.kdelq.filter (· ≠ id) }
 
 def Atom.ops (s : PState) (a : Atom) : List FsOp := if a.guard s then a.rawOps s else []
@@ -278,7 +294,7 @@ def flushAtom (s : PState) : Option (List FsOp × PState) :=
     let es := s.memEnts k
     if es.isEmpty then
       -- `builder.Empty()`: no table; the memtable is dropped and its WAL deleted
-      some (delFile (.mem k), { s with imm := rest, fpc := 0 })
+      some (delFile (.mem k), { s with imm := rest, fpc := 0, pendU := (k, s.fsst) :: s.pendU })
     else
     match s.fpc with
     | 0 => some (mkFile (.sst s.nextSst), { s with fpc := 1, fsst := s.nextSst, nextSst := s.nextSst + 1 })
@@ -287,14 +303,16 @@ def flushAtom (s : PState) : Option (List FsOp × PState) :=
         some ([.append (.sst s.fsst) (.table es)], { s with fpc := 2 })
       else none
     | 2 => some ([.sync (.sst s.fsst)], { s with fpc := if s.cfg.dirSyncFix then 3 else 4 })
-    | 3 => some ([.syncDir], { s with fpc := 4 })
+    | 3 => some ([.syncDir], { (Atom.rawEff s .syncDir) with fpc := 4 })
     | 4 =>
-      if (aget s.fsst s.tset).isNone then
+      -- `manifestFile.addChanges` appends and fsyncs under `appendLock`: no other change set
+      -- is waiting for its fsync
+      if (aget s.fsst s.tset).isNone ∧ !s.mdirty then
         some ([.append .manifest (.mset [.create s.fsst 0])],
-              { s with fpc := 5, tset := aset s.fsst 0 s.tset, tcont := (s.fsst, es) :: s.tcont })
+              { s with fpc := 5, tset := aset s.fsst 0 s.tset, tcont := (s.fsst, es) :: s.tcont, mdirty := true })
       else none
-    | 5 => some ([.sync .manifest], { s with fpc := 6 })
-    | _ => some (delFile (.mem k), { s with imm := rest, fpc := 0 })
+    | 5 => some ([.sync .manifest], { s with fpc := 6, mdirty := false, tsetD := s.tset })
+    | _ => some (delFile (.mem k), { s with imm := rest, fpc := 0, pendU := (k, s.fsst) :: s.pendU })
 
 /-- one scheduler step: the `FsOp`s emitted (one atom) and the next state. Steps that are not
     enabled (writer busy, ill-formed compaction, …) do nothing. -/
@@ -311,7 +329,7 @@ def PState.step (s : PState) : Sched → List FsOp × PState
     if s.wq.isEmpty ∧ s.kins.isEmpty ∧ s.kout.isEmpty ∧ s.kdelq.isEmpty ∧ nodupNat ins ∧
        ins.all (fun id => (aget id s.tset).isSome) ∧ !ins.isEmpty then
       let ids := (List.range outs.length).map (· + s.nextSst)
-      ([], { s with wq := compactProg ids ins, nextSst := s.nextSst + outs.length, kins := ins,
+      ([], { s with wq := compactProg ids ins, nextSst := s.nextSst + outs.length, kins := ins, kdir := false,
                     kout := (ids.zip outs).map (fun (id, o) => { id := id, level := o.1, ents := o.2 }) })
     else ([], s)
   | .w =>
